@@ -81,6 +81,7 @@ def main():
     old.update(meta)
     json.dump(old, open(f'{dst}/meta.json', 'w'), indent=1)
     print(json.dumps({k: meta.get(k) for k in ['property', 'crates', 'patch_applies', 'existing_tests_with_change', 'check']}, indent=1)[:1800])
+    subprocess.run(['python3', '/verif/tools/seed_needs.py'])
     print('demo with change exit:', meta.get('demo_with_change', {}).get('exit'), '| without:', meta.get('demo_without_change', {}).get('exit'))
 
 if __name__ == '__main__':
